@@ -26,7 +26,8 @@ coq: coqmk
 coq/theories/%.vo: coqmk
 	@cd coq && timeout 7200 $(MAKE) -f Makefile.coq -j8 --no-print-directory theories/$*.vo
 
-ocaml/mdrv_%: coqmk coq/extract/Extract_%.v ocaml/drv_%.ml ocaml/util.ml ocaml/jvtext.ml ocaml/mdrv.ml $(wildcard coq/theories/*.v)
+ocaml/mdrv_%: coq/extract/Extract_%.v ocaml/drv_%.ml ocaml/util.ml ocaml/jvtext.ml ocaml/mdrv.ml $(wildcard coq/theories/*.v)
+	@$(MAKE) -s coqmk
 	@cd coq && rm -f extract/Extract_$*.vo && timeout 7200 $(MAKE) -f Makefile.coq -j8 --no-print-directory extract/Extract_$*.vo > /dev/null
 	@mkdir -p ocaml/_b_$* && mv coq/model_$*.ml ocaml/_b_$*/model.ml && mv coq/model_$*.mli ocaml/_b_$*/model.mli
 	@cp ocaml/util.ml ocaml/jvtext.ml ocaml/drv_$*.ml ocaml/mdrv.ml ocaml/_b_$*/
